@@ -60,6 +60,11 @@ def all_strings(maxlen, index, n):
 
 
 def gen_sentence(rnd, style):
+    if rnd.random() < 0.05:
+        # the one place where the grammar needs a look-behind: a dot must be followed by a
+        # v_align or a height -- whatever else comes next
+        tail = rnd.choice(["", "#", "##", "#.5", "#%06X" % rnd.getrandbits(24), "#%06x" % rnd.getrandbits(24), "#aBcDeF", "#FFFFFF", "+L", "+W", "+z1", "+m1", "#00FF00+L", " "])
+        return rnd.choice(["", "<", "|", ">"]) + rnd.choice(["", "0", "7", "12"]) + "." + tail
     parts = []
     if rnd.random() < 0.5:
         parts.append(rnd.choice("<|>"))
